@@ -648,7 +648,7 @@ its candidate list first; fuzzy input inserts while phonetic keys are pending): 
 `Entering` is answered *absorb* and runs the auto-commit. -/
 
 section Linked
-variable {D L : Type} {env : Env D L} {G : D → Prop}
+variable {D L : Type} {env : Env D L} {G : D → Prop} {w : Prop}
 
 /-- in state `Entering` the buffer is within `auto_commit_threshold` -/
 def Bounded (e : Editor D L) : Prop :=
@@ -658,14 +658,14 @@ def Bounded (e : Editor D L) : Prop :=
     `bounded_after_key_syllable` in one): for every environment satisfying C01's `EnvOK`, from every state
     satisfying C01's invariant, in any of the four states, a key answered *absorb* or *commit* that ends in
     `Entering` leaves the buffer within the threshold -/
-theorem bounded_after_key_linked (hE : C01.EnvOK env G) {e e' : Editor D L} (hi : C01.EditorInv env G e)
+theorem bounded_after_key_linked (hE : C01.EnvOK env G) {e e' : Editor D L} (hi : C01.EditorInv env G w e)
     {ev : KeyEvent} {b : KB} (h : e.processKey env ev = .ok (e', b)) (he : e'.state = .entering)
     (hb : b = .absorb ∨ b = .commit) : e'.shared.com.len ≤ e'.shared.options.autoCommitThreshold :=
   Link.bounded_after_key_linked hE hi h he hb
 
 /-- **C05's `tryAutoCommit_total` without the tiling premise**: at every shared state satisfying C01's invariant
     the auto-commit returns (no underflow, no over-removal, no panic of the engine) and re-establishes the bound -/
-theorem tryAutoCommit_total_linked (hE : C01.EnvOK env G) {sh : Shared D L} (h : C01.ShInv env G sh) :
+theorem tryAutoCommit_total_linked (hE : C01.EnvOK env G) {sh : Shared D L} (h : C01.ShInv env G w sh) :
     ∃ sh2, Shared.tryAutoCommit env sh = .ok sh2 ∧ sh2.com.len ≤ sh2.options.autoCommitThreshold :=
   Link.tryAutoCommit_total_linked hE h
 
@@ -676,7 +676,7 @@ theorem threshold_kept {e e' : Editor D L} {ev : KeyEvent} {b : KB} (h : e.proce
 
 /-- **one key keeps the bound**: every result — *absorb* / *commit* (auto-commit or emptied buffer),
     *ignore* (nothing changed), *bell* (buffer and threshold unchanged, handled in `Entering`) -/
-theorem bounded_step (hE : C01.EnvOK env G) {e e' : Editor D L} (hi : C01.EditorInv env G e) (hB : Bounded e)
+theorem bounded_step (hE : C01.EnvOK env G) {e e' : Editor D L} (hi : C01.EditorInv env G w e) (hB : Bounded e)
     {ev : KeyEvent} {b : KB} (h : e.processKey env ev = .ok (e', b)) : Bounded e' := by
   intro he
   cases b with
@@ -699,13 +699,13 @@ theorem bounded_step (hE : C01.EnvOK env G) {e e' : Editor D L} (hi : C01.Editor
     invariant: every key history runs to the end (no panic, no exhausted fuel) and ends in a state
     satisfying both -/
 theorem buffer_bounded_along (hE : C01.EnvOK env G) (keys : List KeyEvent) :
-    ∀ e : Editor D L, C01.EditorInv env G e → Bounded e →
-      ∃ e', e.run env (keys.map .key) = .ok e' ∧ C01.EditorInv env G e' ∧ Bounded e' := by
+    ∀ e : Editor D L, C01.EditorInv env G w e → Bounded e →
+      ∃ e', e.run env (keys.map .key) = .ok e' ∧ C01.EditorInv env G w e' ∧ Bounded e' := by
   induction keys with
   | nil => intro e hi hB; exact ⟨e, rfl, hi, hB⟩
   | cons ev keys ih =>
     intro e hi hB
-    obtain ⟨e1, h1, hi1⟩ := C01.apply_ok hE hi (.key ev) trivial (fun h => h)
+    obtain ⟨e1, h1, hi1⟩ := C01.apply_ok hE hi (.key ev) trivial (fun _ h => h)
     have h1' : (e.processKey env ev).map (·.1) = .ok e1 := h1
     obtain ⟨⟨e1', b⟩, hp, hx⟩ := map_ok h1'
     have hx : e1' = e1 := hx
@@ -715,10 +715,10 @@ theorem buffer_bounded_along (hE : C01.EnvOK env G) (keys : List KeyEvent) :
 
 /-- … in particular from the fresh editor (empty pre-edit) -/
 theorem buffer_bounded_fresh (hE : C01.EnvOK env G) (sh : Shared D L) (hg : G sh.dict) (hcom : sh.com = {})
-    (hcp : sh.options.lookupStrategy = .fuzzyPartialPrefix → C01.engStrategy sh.engine = .fuzzyPartialPrefix)
+    (hcp : w → sh.options.lookupStrategy = .fuzzyPartialPrefix → C01.engStrategy sh.engine = .fuzzyPartialPrefix)
     (hpp : 0 < sh.options.candidatesPerPage) (hsym : C01.SymWF sh.symSel) (keys : List KeyEvent) :
     ∃ e', ({ shared := sh, state := .entering } : Editor D L).run env (keys.map .key) = .ok e' ∧
-      C01.EditorInv env G e' ∧ Bounded e' :=
+      C01.EditorInv env G w e' ∧ Bounded e' :=
   buffer_bounded_along hE keys _ (C01.initial_inv sh hg hcom hcp hpp hsym)
     (fun _ => by show sh.com.len ≤ _; rw [hcom]; exact Nat.zero_le _)
 
@@ -744,7 +744,7 @@ theorem shiftspace_toggles_form_linked {e : Editor D L} (hB : Bounded e) (hs : e
     state-machine part inserts exactly the one character at the cursor; below the threshold that is all
     (*absorb*, nothing committed); AT the threshold the buffer overflows by one and the auto-commit pushes a
     non-empty leading part out (*commit*), the rest — with the new character — stays in order and fits -/
-theorem eng_key_inserts_linked (hE : C01.EnvOK env G) {e : Editor D L} (hi : C01.EditorInv env G e) (hB : Bounded e)
+theorem eng_key_inserts_linked (hE : C01.EnvOK env G) {e : Editor D L} (hi : C01.EditorInv env G w e) (hB : Bounded e)
     {ev : KeyEvent} (hs : e.state = .entering) (hl : e.shared.options.languageMode = .english) (hk : AsciiKey ev)
     (hne : e.shared.com.isEmpty = false) :
     ∃ e' b, e.processKey env ev = .ok (e', b) ∧ e'.state = .entering ∧ e'.shared.options = e.shared.options ∧
@@ -761,7 +761,7 @@ theorem eng_key_inserts_linked (hE : C01.EnvOK env G) {e : Editor D L} (hi : C01
     refine ⟨e', .absorb, h1, h2, h5, ?_, Or.inl ⟨hlt, rfl, h4, h3⟩⟩
     exact Link.bounded_after_key_linked hE hi h1 h2 (Or.inl rfl)
   · have heq : e.shared.com.len = e.shared.options.autoCommitThreshold := Nat.le_antisymm (hB hs) hge
-    obtain ⟨e1, h1, _⟩ := C01.apply_ok hE hi (.key ev) trivial (fun h => h)
+    obtain ⟨e1, h1, _⟩ := C01.apply_ok hE hi (.key ev) trivial (fun _ h => h)
     have h1' : (e.processKey env ev).map (·.1) = .ok e1 := h1
     obtain ⟨⟨e', b⟩, hp, _⟩ := map_ok h1'
     obtain ⟨sh, st, hd, h2⟩ := processKey_split env hp
@@ -794,7 +794,7 @@ theorem eng_key_inserts_linked (hE : C01.EnvOK env G) {e : Editor D L} (hi : C01
 /-! ### non-vacuity: C01's toy environment satisfies `EnvOK`; its fresh editor satisfies both invariants -/
 
 example (keys : List KeyEvent) : ∃ e', (C01.stdEditor [3]).run C01.toyEnv (keys.map .key) = .ok e' ∧
-    C01.EditorInv C01.toyEnv (fun _ => True) e' ∧ Bounded e' :=
+    C01.EditorInv C01.toyEnv (fun _ => True) False e' ∧ Bounded e' :=
   buffer_bounded_along C01.toyEnv_ok keys _ (C01.stdEditor_inv [3]) (fun _ => by decide)
 
 /-- the overflow case of `eng_key_inserts_linked` happens: threshold 1, buffer `[3]` in English mode, key `a` -/
